@@ -47,6 +47,19 @@ def generate(tier, rng):
         c.op(e.id, 'variants', 'names/dup')
         c.op(e.id, 'varray', 'array/dup')
     # generic enums LAST (the four-observable oracle below walks the ops before them in groups of four)
+    from ..spec import VSpec as _V2
+    for j, pos in enumerate((0, 2, 4)):
+        e = ESpec(id='c08gdef%d' % j, name='EnC08gdef%d' % j, derives=['EnumIter', 'EnumCount', 'VariantNames'], feats=['iter', 'count', 'vnames'],
+                  style=[None, 'snake_case', 'UPPERCASE'][j])
+        e.variants = [_V2(ident='Alpha'), _V2(ident='BetaTwo', kind='tuple', ftypes=['u8']), _V2(ident='Gamma', ser=['g']), _V2(ident='Delta')]
+        e.variants.insert(pos, _V2(ident='CatchAll', kind='tuple', ftypes=['String']))
+        e.extra['noise_items'] = {'CatchAll': ['default']}   # written in the source and seen by the model; not a harness-level default
+        e.extra['shape'] = 'with a default variant at %d' % pos
+        e.extra['no_noise'] = True
+        c.add(e)
+        c.op(e.id, 'count', 'count/default-variant')
+        c.op(e.id, 'variants', 'names/default-variant')
+        c.op(e.id, 'collect', 'iter/default-variant')
     for j, gen in enumerate(('where', 'ty', 'const', 'ty_nd', 'lt')):
         e = itercorpus.make_enum('c08g%d' % j, 'EnC08g%d' % j, 4, 'middle', generics=gen if gen != 'lt' else '',
                                  derives=['EnumIter', 'EnumCount', 'VariantNames'] if gen != 'lt' else ['EnumCount', 'VariantNames'],
